@@ -111,8 +111,11 @@ def rule_tables(facts, rep):
         if i < 16:
             if r != ("enum", "anstyle::color::AnsiColor::" + sgr.ANSI16[i]):
                 bad16.append((i, r))
-        elif r != ("nearest", ("sym", "palette"), ("idx", "anstyle_lossy::XTERM_COLORS", i)):
-            badrest.append((i, r))
+        else:
+            tbl = ev._const_value("anstyle_lossy::XTERM_COLORS")
+            cell = tbl[1 + i] if tbl is not None and tbl[0] == "array" and i < len(tbl) - 1 else ("idx", "anstyle_lossy::XTERM_COLORS", i)
+            if r not in (("nearest", ("sym", "palette"), ("idx", "anstyle_lossy::XTERM_COLORS", i)), ("nearest", ("sym", "palette"), cell)):
+                badrest.append((i, r))
         rep.count()
     rep.check(not bad16, "tables", b["path"], "0-15-are-the-16-colours",
               f"indices 0..=15 of the 256-colour palette ARE the 16-colour palette, whatever the user palette contains: {bad16[:3]}", loc(b))
